@@ -415,7 +415,7 @@ func main() {
 		c.interleavings() // one preemption of a reader inside a cached query (vtrace); groups dealt to shards
 	}
 	for _, s := range ss {
-		if c.dayChanged {
+		if c.dayChanged || os.Getenv("VERIF_C06_ONLY") == "interleaved" {
 			break
 		}
 		c.search(s)
